@@ -29,7 +29,7 @@ WITNESS = {
     "inner_weighted_var": "moments", "weighted_var": "moments", "weighted_std": "moments", "horner_method": "moments", "moments": "moments",
     "entropy": "entropy", "kl_divergence": "entropy", "cross_entropy": "entropy",
     "cov": "cov", "pearson_correlation": "cov",
-    "weighted_var_axis": "moments", "weighted_std_axis": "moments",
+    "weighted_var_axis": "moments", "weighted_std_axis": "moments", "weighted_sum_axis": "means", "weighted_mean_axis": "means", "harmonic_mean": "means", "geometric_mean": "means",
     "central_moment_coefficients": "moments",
     "central_moment": "moments", "central_moments": "moments", "kurtosis": "moments", "skewness": "moments",
 }
@@ -224,11 +224,11 @@ PROPS.update({
     },
     "C06": {
         "level": "proof",
-        "level_text": "Verus discharges on the extracted bodies of weighted_sum, weighted_mean and mean (src/summary_statistics/means.rs), generically in the element type with its own operators (uninterpreted, deterministic): weighted_sum returns an error exactly when the shapes differ (also for empty input) and otherwise zero + d_0*w_0 + d_1*w_1 + ... with data and weights paired by logical index in logical order, whatever the two memory layouts (the zip/fold closure is annotated with its step relation and checked against its body; a proved lemma turns the fold trace into a left fold); weighted_mean is EmptyInput for empty data, an error for different shapes, else weighted_sum divided by the sum of the weights with the type's own division; mean is EmptyInput for empty data, else (sum of all elements) / n with the type's own division. Integer exactness of the underlying machine arithmetic, the per-axis forms (map_axis closures) and harmonic/geometric mean are compared with exact i64 arithmetic / their definitions on the real crate",
+        "level_text": "Verus discharges on the extracted bodies of weighted_sum, weighted_mean and mean (src/summary_statistics/means.rs), generically in the element type with its own operators (uninterpreted, deterministic): weighted_sum returns an error exactly when the shapes differ (also for empty input) and otherwise zero + d_0*w_0 + d_1*w_1 + ... with data and weights paired by logical index in logical order, whatever the two memory layouts (the zip/fold closure is annotated with its step relation and checked against its body; a proved lemma turns the fold trace into a left fold); weighted_mean is EmptyInput for empty data, an error for different shapes, else weighted_sum divided by the sum of the weights with the type's own division; mean is EmptyInput for empty data, else (sum of all elements) / n with the type's own division. Integer exactness of the underlying machine arithmetic, ALSO PROVED in exact arithmetic (unit moments, assumption A-REAL): weighted_sum_axis / weighted_mean_axis (entry j = weighted sum of lane j with the same weights [/ sum of the weights], pairing by logical index; nested closures: map_axis closure + fold closure re-headed with three parameters), harmonic_mean = 1 / mean(1/x) and geometric_mean = exp(mean(ln x)) with EmptyInput for empty data; all of them are also compared with exact i64 arithmetic / their definitions on the real crate",
         "level_note": "trusted: A-ND n-D (iter() yields the elements in logical order, Iterator::zip pairs position by position, Iterator::fold goes left to right, sum() adds every element once in an unspecified order, equal shapes have equally many elements), A-NUM (generic Add/Mul/Div/Zero/FromPrimitive deterministic and defined for the operands), rewrite R9 with a binding prefix for the destructuring closure parameters `|acc, (&d, &w)|`. NOT decided: floating-point accuracy (forward error bound) of every routine; per-axis forms and harmonic/geometric mean are bounded only (enum:means: i64/i32 over {-9,0,4,100}, weights {0,1,3}, <= 3 elements exhaustively and sampled above, shapes up to 3-D, 9 layout pairings)",
         "technique": "Verus contracts on the extracted mean / weighted_sum / weighted_mean bodies (closure step relation + fold-trace lemma); bounded enumeration against exact integer arithmetic for the rest",
         "design_ref": "DESIGN.md 4 (C06), 8a",
-        "verus": [("means", "N")],
+        "verus": [("means", "N"), ("moments", "N")],
         "enum": [{"name": "means"}, {"name": "floatsums"}],
         "assumptions": [A_VERUS, A_EXTRACT, A_ENUM, "A-ND (n-D) iter/zip/fold/sum as stated in shim/means.rs", "A-NUM: generic arithmetic is deterministic; machine arithmetic of the concrete element type is not interpreted"],
         "not_decided": ["floating-point accuracy beyond the inputs of enum:floatsums (f64 mean / weighted_sum / weighted_mean vs the exact rational value within (n+2) u sum|terms|: bounded only); accuracy of harmonic_mean / geometric_mean (ln, exp)", "per-axis forms and harmonic/geometric mean beyond the enumerated inputs"],
